@@ -649,10 +649,11 @@ def render_operand(op, sp=' ', case=None) -> str:
         return _deco_wrap('[' + inner + ']', op.get('deco'))
     if k == 'indidx':
         return _deco_wrap('[' + reg(op['r']) + sp + '+' + sp + render_operand(op['idx'], sp, case) + ']', op.get('deco'))
+    b = sp if sp in ('  ', '\t', ' \t') else ''      # wide spacing also goes between brackets and what they enclose
     if k == 'indnum':
-        return '[' + exprs.render(op['e'], sp) + ']'
+        return '[' + b + exprs.render(op['e'], sp) + b + ']'
     if k == 'defnum':
-        return '[[' + exprs.render(op['e'], sp) + ']]'
+        return '[' + b + '[' + b + exprs.render(op['e'], sp) + b + ']' + b + ']'
     raise ValueError(k)
 
 
